@@ -22,7 +22,7 @@ RULE = (
     "distributions, incl. fixed lifetimes exactly on an evaluated age) x (start, middle, end, n=2..10 "
     "Gauss-Lobatto points; n>1 also combined with inflow_at start/end, which must be ignored) x (parameter "
     "shapes: scalar / per label / per cohort / several dims in permuted storage order, different per parameter) "
-    "x (extra dims: none, p, p x q with equal lengths) x (parameters via constructor / set_prms). Every entry of "
+    "x (extra dims: none, p, p x q with equal lengths) x (parameters via constructor / set_prms / set_prms on a model whose tables had already been read with other parameters). Every entry of "
     "sf and pdf is compared with the model (1e-12) and the structural invariants are evaluated on every table. "
     "Non-trivial = table with >= 3 cohorts (all are). Distinct by construction."
 )
@@ -151,7 +151,7 @@ def run_unit(u):
         for shapes2 in shape_pairs(extra, tier):
             for quad in quads(tier):
                 k += 1
-                vias = ("ctor", "set_prms") if tier == "thorough" and quad[1] in (1, 4) else (("ctor", "set_prms")[k % 2],)
+                vias = ("ctor", "set_prms", "reparam") if tier == "thorough" and quad[1] in (1, 4) else (("ctor", "set_prms", "reparam")[k % 3],)
                 if tier == "thorough" and len(extra) == 2 and quad[1] not in (1, 2, 5, 10):
                     continue
                 for via in vias:
